@@ -557,6 +557,9 @@ func addExploration(ctx *core.Ctx, pl *plan) error {
 	}
 	for _, name := range FamilyNames {
 		for _, n := range sizes {
+			if name == "cmap-wide" && n > 4 {
+				continue // four structures, selected by n%4
+			}
 			if n >= 1000 && (strings.HasPrefix(name, "ladder") || strings.HasPrefix(name, "wide") && n > 1000) {
 				continue
 			}
@@ -568,12 +571,35 @@ func addExploration(ctx *core.Ctx, pl *plan) error {
 					if xs && n > 3 && !ctx.Thorough() {
 						continue
 					}
+					if name == "cmap-wide" && n%4 == 3 && cyc && !xs && !ctx.Thorough() {
+						// the 100-line 4-byte ToUnicode on a composite font costs ~10-16 s
+						// of CPU (known finding alloc/glyphnames/cmap-wide); the one-line
+						// variant already shows it in the quick tier
+						continue
+					}
 					f := &Family{Name: name, Size: n, Cyc: cyc, XS: xs}
 					pl.add(&Req{Family: f}, "family:"+name, f.key(), nil)
 				}
 			}
 		}
 	}
+
+	// typed-number mutants of the resource zoo: every numeric entry of every
+	// dictionary the page decode reaches, every value of typedValues
+	zoo := zooFile()
+	pl.add(&Req{Data: zoo}, "seed:zoo", "zoo", nil)
+	sites := typedSites(zoo)
+	for si, site := range sites {
+		for _, val := range typedValues {
+			name := val
+			if name == "" {
+				name = "missing"
+			}
+			pl.add(&Req{Data: applyTyped(zoo, site, val), Raw: true, PageOnly: true}, "typed:zoo",
+				fmt.Sprintf("zoo/%d/%s=%s", si, site.key, name), []Mutation{{Op: "typed-" + name, Slot: site.key}})
+		}
+	}
+	ctx.Ev.Set("typed_number_mutants", map[string]int{"numeric_entries_of_the_resource_zoo": len(sites), "values_per_entry": len(typedValues)})
 
 	// seeds
 	rng := ctx.Rand("seeds")
